@@ -125,6 +125,18 @@ CLAIMED["C17"] = dict(
          "is the assumed msgpack contract.",
 )
 
+CLAIMED["C18"] = dict(
+    text="Proof, path-complete over a two-key universe where per key (and per sub-job for vectorized jobs) membership in source and "
+         "destination, the cached output (exists / loadable / hash / exit code), the outcome of a fresh run and whether process() "
+         "raises are symbolic: only source items missing from the destination are touched; an item (sub-job) is executed iff it has no "
+         "valid cached output, at most once; the destination receives exactly the processed results of items whose outputs are all "
+         "valid (exit 0, same input hash); destination-only keys are left alone; no exception escapes.",
+    ref="DESIGN.md section 3 C18",
+    note="Collections through ghost maps with reading()/writing() sessions (their real behaviour is C02/C04), thread pool = sequential "
+         "calls, cache directory as ghost file map, job.prepare/process uninterpreted; key universe of two keys (bounded); jobmap_sge shares "
+         "the preparation/finalisation text and received the same repairs but is not separately verified.",
+)
+
 NOT_APPLICABLE = {
 }
 
